@@ -128,6 +128,7 @@ func C14(c *core.Ctx, replay string) {
 	st.phaseTrace()
 	c.Logf("trace phase done in %.1fs", time.Since(t0).Seconds())
 	st.probeObservations()
+	st.phaseHistory()
 
 	c.Exhaustive = true
 	c.Extra["http_requests"] = st.nHTTP
@@ -1113,6 +1114,8 @@ func (st *c14State) replay(rc *c14Case) {
 	c := st.c
 	var rs auth.Resources
 	switch rc.Phase {
+	case "history":
+		st.phaseHistory()
 	case "glob":
 		// the oracle is TLC: one-line trace
 		got := rs.Match(rc.P, rc.S)
